@@ -17,8 +17,20 @@ CB_TRUST = [
 ]
 
 PROPS = {
+    "C15": {
+        "modules": ["SamlModel.Props.C15"],
+        "translated": [],
+        "race": True,
+        "trusted_base": COMMON_TRUST + [
+            "Model.Interleave: a request in flight is a program over atomic storage operations and identifier draws; storage keys created by a request and identifiers drawn by it come from its own name space (the storage / uuid.New hand out values no other request is given) - stated hypotheses, not proved; the theorems hold for every family of programs, so no correspondence of the program shapes is needed for C15_isolation / C15_no_cross_talk / C15_ids_distinct; callbackProg / sessionProg (the instance at the shape of the real endpoints) reply Model.Callback.callback of the storage answers (tied as in C01)",
+            "that handlers share nothing but the storage is the regenerated obligation C15_shared_state_readonly (go2lean shared.go: static, object-level call graph; calls through interfaces and function values are not followed; reflection, unsafe and cgo are not used by the library) and is probed dynamically by the history differential (long-lived provider vs. freshly built world on every request of random histories)",
+            "data-race freedom under the Go memory model and real scheduling are observed, not proved: the harness is built with -race and any report of the race detector fails the check; N concurrent clients incl. clients that stall inside ResponseWriter.Write",
+        ],
+        "assumptions": ["uuid.New does not repeat (C15_ids_distinct takes injectivity of the identifier source as hypothesis); the '_'+UUID shape and pairwise distinctness are checked on every concurrent run",
+                        "the integrator's storage serialises its operations (the harness storage uses one mutex)"],
+    },
     "C16": {
-        "modules": ["SamlModel.Props.C16"],
+        "modules": ["SamlModel.Props.C16", "SamlModel.Props.Stateless"],
         "translated": ["GetAcsUrlAndBindingForResponse", "isXSBooleanTrue"],
         "trusted_base": COMMON_TRUST + [
             "Lib.atoi models strconv.Atoi (differentially tested); slices modelled as lists",
@@ -39,7 +51,7 @@ PROPS = {
         ],
     },
     "C04": {
-        "modules": ["SamlModel.Props.C04"],
+        "modules": ["SamlModel.Props.C04", "SamlModel.Props.Stateless"],
         "translated": ["BuildRedirectQuery", "getResponseCert"],
         "trusted_base": COMMON_TRUST + CB_TRUST + [
             "RSA / SHA are not modelled: C04_redirect_query states that an independent verifier recovers exactly the signed octets, the algorithm URI and the signature bytes from the query sent; that rsa.VerifyPKCS1v15 then accepts is the law verify(pk, m, sign(sk, m)) of the scheme, observed with real keys on every redirect reply",
@@ -51,7 +63,7 @@ PROPS = {
                         "a registered consumer URL contains no '#' (a fragment would swallow the query); URLs with an own query are covered by C04_redirect_url_with_query under the stated hypothesis that they do not themselves carry a SAMLResponse / RelayState / SigAlg / Signature parameter"],
     },
     "C05": {
-        "modules": ["SamlModel.Props.C05"],
+        "modules": ["SamlModel.Props.C05", "SamlModel.Props.Stateless"],
         "translated": ["signaturePostProvided", "signaturePostVerificationNecessary", "signatureRedirectVerificationNecessary",
                        "verifyRedirectSignature", "verifyPostSignature", "certificateCheckNecessary", "checkCertificate", "isXSBooleanTrue"],
         "trusted_base": COMMON_TRUST + SSO_TRUST + [
@@ -60,7 +72,7 @@ PROPS = {
         "assumptions": ["Form.WF: the binding decision of getAuthRequestFromRequest is POST or Redirect (fingerprinted function; checked on every case by the sso correspondence)"],
     },
     "C06": {
-        "modules": ["SamlModel.Props.C06"],
+        "modules": ["SamlModel.Props.C06", "SamlModel.Props.Stateless"],
         "translated": ["checkRequestRequiredContent", "checkIfRequestTimeIsStillValid", "verifyRequestDestinationOfAuthRequest", "ServiceProvider_GetEntityID"],
         "trusted_base": COMMON_TRUST + SSO_TRUST + [
             "time.Parse / time.Now are oracles (Ora.timeParse, Ora.now); XML decoding (DecodeAuthNRequest incl. base64/DEFLATE) is an oracle whose failure is `decoded = none`",
@@ -68,7 +80,7 @@ PROPS = {
         "assumptions": ["wall-clock cases keep a 10-minute guard band; the exact boundary NotBefore <= now < NotOnOrAfter is covered by the theorem on the translated time.go"],
     },
     "C08": {
-        "modules": ["SamlModel.Props.C08"],
+        "modules": ["SamlModel.Props.C08", "SamlModel.Props.Stateless"],
         "translated": ["GetAcsUrlAndBindingForResponse", "checkRequestRequiredContent"],
         "trusted_base": COMMON_TRUST + SSO_TRUST + [
             "that the implementation writes exactly one reply and calls CreateAuthRequest at most once is observed by the harness (reply parser counts documents/forms; storage call log), the model's Result holds one of each by construction",
@@ -76,13 +88,13 @@ PROPS = {
         "assumptions": [],
     },
     "C01": {
-        "modules": ["SamlModel.Props.C01"],
+        "modules": ["SamlModel.Props.C01", "SamlModel.Props.Stateless"],
         "translated": ["getResponseCert", "Attributes_GetSAML", "Attributes_GetNameID"],
         "trusted_base": COMMON_TRUST + CB_TRUST,
         "assumptions": ["Done() is owned by storage: the history theorem models completion as the only operation that sets it"],
     },
     "C03": {
-        "modules": ["SamlModel.Props.C03"],
+        "modules": ["SamlModel.Props.C03", "SamlModel.Props.Stateless"],
         "translated": ["Attributes_GetSAML", "Attributes_GetNameID", "getResponseCert"],
         "trusted_base": COMMON_TRUST + CB_TRUST + [
             "time.Now/Format are inputs of the model (issueInstant, untilInstant); C03_window is stated for any formatter/parser with the stated granularity law; the harness brackets IssueInstant with the wall clock",
@@ -92,7 +104,7 @@ PROPS = {
         "assumptions": [],
     },
     "C13": {
-        "modules": ["SamlModel.Props.C13"],
+        "modules": ["SamlModel.Props.C13", "SamlModel.Props.Stateless"],
         "translated": ["checkIfRequestTimeIsStillValid"],
         "trusted_base": COMMON_TRUST + [
             "Model.Logout is a hand-written model of logoutHandleFunc and the LogoutResponse builders: tied by theorem C13_source_current (regenerated chain skeleton = snapshot, fingerprints) and by the slo correspondence",
@@ -101,7 +113,7 @@ PROPS = {
         "assumptions": ["SpWF: registered metadata has an SPSSODescriptor (NewServiceProvider refuses metadata without one)"],
     },
     "C12": {
-        "modules": ["SamlModel.Props.C12"],
+        "modules": ["SamlModel.Props.C12", "SamlModel.Props.Stateless"],
         "translated": ["verifyRequestDestinationOfAttrQuery", "certificateCheckNecessary", "checkCertificate", "signaturePostProvided",
                        "ServiceProvider_GetEntityID", "Attributes_GetSAML", "Attributes_GetNameID", "getResponseCert"],
         "trusted_base": COMMON_TRUST + [
@@ -120,7 +132,7 @@ PROPS = {
         "assumptions": ["the three callers (DecodeAuthNRequest, DecodeLogoutRequest via the SSO/logout form readers) reach the inflater only through InflateAndDecode (fingerprinted)"],
     },
     "C17": {
-        "modules": ["SamlModel.Props.C17"],
+        "modules": ["SamlModel.Props.C17", "SamlModel.Props.Stateless"],
         "translated": [],
         "trusted_base": COMMON_TRUST + [
             "html/template is not translated: its three escapers that act on the page (attrEscaper, urlFilter, urlNormalizer) and the splice of literal segments and escaped values are hand-modelled byte-exactly in Lib.Html / Lib.HtmlTok.page; the model is compared on every run with the bytes html/template writes for the library's own template constants and with the bodies the real callback, SSO-error and logout handlers send (`lib page`)",
@@ -131,7 +143,7 @@ PROPS = {
         "assumptions": ["a browser tokenises the page as the WHATWG tokenizer does; tree construction (foster parenting, implied end tags) is not modelled - the page theorem fixes the complete token stream, from which exactly one form with two hidden inputs follows for any conformant tree builder"],
     },
     "C18": {
-        "modules": ["SamlModel.Props.C18"],
+        "modules": ["SamlModel.Props.C18", "SamlModel.Props.Stateless"],
         "translated": ["InflateAndDecode"],
         "trusted_base": COMMON_TRUST + [
             "encoding/xml is not translated: its struct marshaller (marshalValue / marshalStruct / marshalAttr: naming precedence, xmlns emission, attr / omitempty / chardata / innerxml / any, nil pointers, slices) and its printer and escaper are hand-modelled in Lib.XmlMarshal / Lib.Xml / Lib.XmlEscape as an interpreter of the wire schema; the schema itself (Gen.Schema: every struct type of pkg/provider/xml/**, field order, tags as encoding/xml's typeinfo reads them) is regenerated from the source on every run; model and real samlxml.Marshal are compared byte for byte on randomly filled values of every root type (`lib marshal`)",
@@ -153,7 +165,7 @@ PROPS = {
         "assumptions": ["scheme comparison follows net/url (scheme is lower-cased by the parser; schemes are case-insensitive per RFC 3986)"],
     },
     "C02": {
-        "modules": ["SamlModel.Props.C02"],
+        "modules": ["SamlModel.Props.C02", "SamlModel.Props.Stateless"],
         "translated": ["GetAcsUrlAndBindingForResponse"],
         "trusted_base": COMMON_TRUST + SSO_TRUST + CB_TRUST + [
             "the auto-submit form (action attribute) is covered byte-exactly by C17; the redirect URL assembly (two fingerprinted lines of sendBackResponse) is hand-modelled as redirectURL",
@@ -161,7 +173,7 @@ PROPS = {
         "assumptions": ["callback: 'registered' is by composition with the SSO theorem - the stored pair is the pair the SSO endpoint persisted (C02_sso_persists_registered_pair); storage is trusted to return what was stored"],
     },
     "C10": {
-        "modules": ["SamlModel.Props.C10"],
+        "modules": ["SamlModel.Props.C10", "SamlModel.Props.Stateless"],
         "translated": ["getResponseCert"],
         "trusted_base": COMMON_TRUST + SSO_TRUST + CB_TRUST + [
             "Model.Metadata (metadata / certificate / readiness handlers), Model.Logout, Model.AttrQuery: hand models tied by fingerprints and their correspondences",
@@ -170,7 +182,7 @@ PROPS = {
         "assumptions": ["a storage operation either succeeds or returns an error / malformed key record; panics inside storage are the integrator's"],
     },
     "C11": {
-        "modules": ["SamlModel.Props.C11"],
+        "modules": ["SamlModel.Props.C11", "SamlModel.Props.Stateless"],
         "translated": ["Endpoint_Absolute", "Endpoint_Relative", "relativeEndpoint", "absoluteEndpoint", "getResponseCert",
                        "signatureRedirectVerificationNecessary", "signaturePostVerificationNecessary"],
         "trusted_base": COMMON_TRUST + SSO_TRUST + [
@@ -182,7 +194,7 @@ PROPS = {
                         "hunsigned (C11_want_signed_means_refused): the XML-DSig validator rejects a document without signature (goxmldsig; sampled)"],
     },
     "C09": {
-        "modules": ["SamlModel.Props.C09"],
+        "modules": ["SamlModel.Props.C09", "SamlModel.Props.Stateless"],
         "translated": ["certificateCheckNecessary", "checkCertificate", "equalCertificateText", "checkRequestRequiredContent", "verifyRequestDestinationOfAuthRequest",
                        "verifyRequestDestinationOfAttrQuery", "GetCertsFromKeyDescriptors", "getResponseCert", "GetAcsUrlAndBindingForResponse",
                        "signaturePostProvided", "signatureRedirectVerificationNecessary", "signaturePostVerificationNecessary", "verifyRedirectSignature", "verifyPostSignature"],
@@ -193,7 +205,7 @@ PROPS = {
         "assumptions": ["SpWF: a registered service provider has metadata with an SPSSODescriptor (NewServiceProvider refuses others); storage returns non-nil objects with nil errors"],
     },
     "C07": {
-        "modules": ["SamlModel.Props.C07"],
+        "modules": ["SamlModel.Props.C07", "SamlModel.Props.Stateless"],
         "translated": ["signatureRedirectVerificationNecessary", "signaturePostVerificationNecessary", "verifyRedirectSignature", "verifyPostSignature",
                        "certificateCheckNecessary", "checkCertificate", "checkRequestRequiredContent", "checkIfRequestTimeIsStillValid",
                        "verifyRequestDestinationOfAuthRequest", "verifyRequestDestinationOfAttrQuery", "GetAcsUrlAndBindingForResponse"],
